@@ -174,6 +174,13 @@ class Ctx:
             real = False
         fn = info.get("fn") or (run.fn if hasattr(run, "fn") else "?")
         if not real:
+            frag = self._fragile(p)
+            if frag:
+                self.ob("R-DASSERT", "fragile:%s" % (site(sp).split(":")[0],), fn, site(sp), False,
+                        "the debug_assert at %s compares computed floating-point quantities that are EQUAL over the reals when %s; "
+                        "both sides are rounded, so the assertion can fail by one ulp for such inputs and a debug build panics "
+                        "[asserted: %s]" % (site(sp), frag[0], frag[1][:200]))
+                return
             # counted in the evidence only: on the pinned tree the crate's own invariant assertions
             # (`debug_assert_ne!(sum_2, 0.)` after `sum_3 != 0`, `n[4] >= 0`) end up here
             d = self.extra.setdefault("debug_assert_paths_not_decided", {})
@@ -182,6 +189,64 @@ class Ctx:
             return
         self.ob("R-DASSERT", "debug-assert:%s" % (site(sp).split(":")[0],), fn, site(sp), False,
                 "a debug build panics in a debug_assert at %s [path: %s]" % (site(sp), (pc_show(p.pc) or "unconditional")[:300]))
+
+    def _fragile(self, p):
+        """the failing comparison of a debug assertion whose two sides coincide over the reals on a
+        plainly reachable configuration (the two operands of a merge have equal values of a field, e.g.
+        equal chunk means) and of which at least one side is computed with rounding: returns
+        (configuration, comparison) or None"""
+        import fnode as F
+        last = None
+        for e in p.pc:
+            if e[0] == "fcmp":
+                last = e
+        if last is None:
+            return None
+        _, op, a, b, t, _sp = last
+        if op in ("Eq", "Ne"):
+            return None
+
+        def rounds(x):
+            return isinstance(x, tuple) and any(y[0] in ("add", "sub", "mul", "div") for y in self._nodes(x))
+        if not (rounds(a) or rounds(b)):
+            return None
+        groups = {}
+        for nm in sorted(F.atoms(a) | F.atoms(b)):
+            if nm.startswith("int:") or nm.startswith("opq:") or "." not in nm:
+                continue
+            groups.setdefault(nm.split(".", 1)[1], []).append(nm)
+        sub, desc = {}, []
+        for fld, names in groups.items():
+            if len(names) >= 2:
+                for other in names[1:]:
+                    sub[F.atom(other)] = F.atom(names[0])
+                desc.append("%s = %s" % (" = ".join(names), "(equal `%s`)" % fld))
+        if not sub:
+            return None
+        try:
+            import pit
+            import rules as R
+            a2, b2 = F.subst(a, sub), F.subst(b, sub)
+            ok, _ = pit.identical([("assert", a2, b2)], seed=5, points=3, int_bounds=R._pit_bounds(p.machine), squares=False)
+        except Exception:
+            return None
+        if not ok:
+            return None
+        return ", ".join(desc), "%s %s %s" % (F.show(a)[:90], op if t else "not " + op, F.show(b)[:90])
+
+    @staticmethod
+    def _nodes(x):
+        seen, st = set(), [x]
+        while st:
+            y = st.pop()
+            if not isinstance(y, tuple) or id(y) in seen:
+                continue
+            seen.add(id(y))
+            yield y
+            if y[0] in ("add", "sub", "mul", "div", "neg"):
+                st.extend(y[1:])
+            elif y[0] == "fn":
+                st.extend(z for z in y[2:] if isinstance(z, tuple))
 
     def floor(self, what, measured, minimum):
         if self.variant:
